@@ -20,7 +20,7 @@ func TestStress(t *testing.T) {
 	defer r.Flush()
 	// thundering herd: concurrent calls with one transaction id; at most one may be admitted
 	for _, fm := range []string{"nclient4", "nclient6"} {
-		rounds := r.Pick(1500, 20000)
+		rounds := r.Pick(1500, 60000)
 		bad, maxAdm, detail := cstress.Herd(fam(fm), rounds, 8)
 		r.Eval(rounds)
 		r.Count("herd.rounds", rounds)
@@ -29,7 +29,7 @@ func TestStress(t *testing.T) {
 			r.Violate("C10:stress:pending-xid-shared", fmt.Sprintf("%s: in %d of %d rounds more than one call was admitted; %s", fm, bad, rounds, detail), sreplay{-1, fm})
 		}
 	}
-	n := r.Pick(2000, 40000)
+	n := r.Pick(2000, 150000)
 	for i := 0; i < n; i++ {
 		if !r.Mine(i) {
 			continue
